@@ -15,6 +15,13 @@ PROP = dict(
     rule="gfx.rt: every image length 0..1100 (quick: one of 18 format/offset/id-count configurations per length, thorough: all 18) "
          "and random lengths to 6000 through the real encoder, then the lines (one third with non-graphics lines woven in) through "
          "the batch decoder, ASCIIreader.Parse line by line, and Parse with json.Marshal/Unmarshal of the reader between lines; "
+         "gfx.multi: ONE encoder call carrying several graphics states - every ordered pair and triple over the six image kinds "
+         "{MONO, RGB16bit, Gray4bit} x {without, with offset}, each tuple with its states all in one InboundMessage, one message per "
+         "state, and (triples) split 2+1 and 1+2 over the messages of the call (936 records per pass; thorough 4 passes), sizes "
+         "1..511 around the chunk size (now and then 0), 0-3 targets per state (equal and different ids), own dimensions per "
+         "state, every third record with non-graphics lines woven in; model = code on the whole call (encodeMsgs) and "
+         "Spec.Gfx.checkEncAll / checkCleanAll per image in message order on the encoder's lines and on what the batch decoder, "
+         "the streaming reader and the serialised reader deliver; "
          "gfx.hist: ALL histories of length 1-3 (thorough 4) over the 29-symbol alphabet {2 targets x 2 formats x (chunk 0 simple, "
          "chunk 0 with /0 /1 /2 header, chunks 1 2 3), ping}, all of length 4 (thorough 5) over a 13-symbol sub-alphabet (one target "
          "complete, chunk 0 + chunk 1 of the other target and of the other format, ping, one undecodable payload), all of length 6 "
@@ -37,7 +44,7 @@ PROP = dict(
 )
 
 CLAIM = dict(
-    text="Lean theorems C05.* about the model of the repaired chunk decoder (fix: 87cf381): (chunking) for every image and target list the encoder emits ceil(len/170) numbered lines of at most 170 payload bytes whose payloads concatenate to the image, none for an empty image, and each line is read back by the decoder's matcher as that index/format/target/payload/header; (clean runs) for every image with uint32 metadata and every id list of uint32 ids, the encoder's whole output (one transfer per id) - in one batch call, line by line through the streaming reader, with the reader state serialised/restored between any two lines, or with unrelated non-graphics lines woven in anywhere, from ANY state of the decoder's locals / ANY reader state / ANY JSON state document (hence after any earlier history) - yields exactly one image per id, in order, equal to what was sent, returned at the last chunk line of its run (clean_run_spec_multi_any_state, clean_run_spec_multi; single-transfer forms clean_run_*); (safety) for EVERY history of lines (no length bound; ids, dimensions, offsets < 2^32 and chunk indices < 2^63, any number of digits) under the three feeding disciplines the Spec's check passes: every delivered image is legitimate where it was returned (chunks 0..N in order of one transfer started by its chunk 0, same target list and format, header metadata, no chunk 0 between, payloads valid base64), no transfer is delivered twice; and for every history whatsoever no delivered image object is altered afterwards - batch: never_altered (objects are store cells), streaming: stream_never_altered (object identity across Parse calls in a session heap; Parse returns nil or what one batch call returns; the reader struct holds no pointer: reader_fields_are_values, regenerated). base64 decode(encode b) = b is proved. The same Spec predicates (with the Spec's own independently written line grammar) are evaluated on the real library's deliveries; model = code is checked on generated and exhaustively enumerated histories.",
+    text="Lean theorems C05.* about the model of the repaired chunk decoder (fix: 87cf381): (chunking) for every image and target list the encoder emits ceil(len/170) numbered lines of at most 170 payload bytes whose payloads concatenate to the image, none for an empty image, and each line is read back by the decoder's matcher as that index/format/target/payload/header; (clean runs) for every image with uint32 metadata and every id list of uint32 ids, the encoder's whole output (one transfer per id) - in one batch call, line by line through the streaming reader, with the reader state serialised/restored between any two lines, or with unrelated non-graphics lines woven in anywhere, from ANY state of the decoder's locals / ANY reader state / ANY JSON state document (hence after any earlier history) - yields exactly one image per id, in order, equal to what was sent, returned at the last chunk line of its run (clean_run_spec_multi_any_state, clean_run_spec_multi; single-transfer forms clean_run_*); (several images in one call) for every list of messages, each with any number of states, each state with its own format, dimensions, offset, bytes and uint32 target ids, the encoder's lines for the whole call (encodeMsgs: message after message, state after state, the line prefix chosen per image) pass the Spec's whole-call check checkEncAll (per image in message order and per id one clean run of THAT image; encoder_call_clean), and - woven with unrelated lines, from any decoder/reader/JSON state, under the three disciplines - yield exactly one delivery per image and id, in order, equal to its own image incl. format, at the last line of its run (clean_run_spec_call_any_state, clean_run_spec_call); on a single image the whole-call predicates are the single-image ones (call_checks_generalise), and they reject a MONO image emitted or delivered with the prefix/format of the image before it (carried_prefix_rejected); (safety) for EVERY history of lines (no length bound; ids, dimensions, offsets < 2^32 and chunk indices < 2^63, any number of digits) under the three feeding disciplines the Spec's check passes: every delivered image is legitimate where it was returned (chunks 0..N in order of one transfer started by its chunk 0, same target list and format, header metadata, no chunk 0 between, payloads valid base64), no transfer is delivered twice; and for every history whatsoever no delivered image object is altered afterwards - batch: never_altered (objects are store cells), streaming: stream_never_altered (object identity across Parse calls in a session heap; Parse returns nil or what one batch call returns; the reader struct holds no pointer: reader_fields_are_values, regenerated). base64 decode(encode b) = b is proved. The same Spec predicates (with the Spec's own independently written line grammar) are evaluated on the real library's deliveries; model = code is checked on generated and exhaustively enumerated histories.",
     note=TB + "spec_reading_agrees: the Spec's independent line grammar (Spec.Gfx.parseLine) equals the decoder's matcher (readLine) on EVERY byte string. safety_spec_batch is stated on batchObserved = the returned message list WITHOUT line positions, images read after the call (what the driver builds from the implementation's output); it follows from the positions form by safety_erase_pos (deliveries in line order that pass with positions pass without; the order hypothesis is needed: safety_erase_pos_needs_order) and batchObserved_eq. safety_spec_stream carries the positions of the Parse calls, which the driver observes. Domain: safety_id_domain_counterexample shows the 2^32 bound on ids is needed (the decoder stores ids as uint32). The JSON hop rewrites invalid UTF-8 in held lines to U+FFFD; serial_stream proves the serialised reader returns at every line what the plain reader returns. C06.batch_models_agree / parse_models_agree: this model and the full inbound decoder model of C01/C02/C06 return the same messages on every line sequence.",
     technique="Lean 4 proof (induction over the chunk index / the id list for clean runs; invariant over the history with ghost positions of accepted chunks and a reachability argument for the Spec's legitimacy search; greedy-exchange argument for erasing positions; simulation for the JSON hop and between the two decoder models) + model/implementation correspondence incl. exhaustive short histories",
 )
